@@ -8,6 +8,14 @@
   The loop program `lops` (any list of to_HAP / get_value / subscribe / unsubscribe / drain / flush
   operations) and the worker program `wups` (any list of `set_value` calls, valid or rejected) are
   universally quantified as well.
+
+  Map from the property's sentences to the theorems:
+    "the outcome equals that of some serial order"  C20_serial_order (the property's quantifier `AtomicUpd`: the
+        whole update at a step boundary), C20_read_never_none; C20_fine_grained_not_serializable (why not finer)
+    "subsequent reads … show the new value"         C20_no_stale(_window), C20_update_not_lost,
+        C20_later_reads_show_final (every later read, every schedule), C20_subsequent_read
+    "subscribed controllers end up with it …"       C20_event, C20_pending_has_timer, C20_handoff_exact,
+        C20_event_quiescent(_delivered), C20_event_delivered (drain + timer expiry reach quiescence)
 -/
 import Proofs.Race
 namespace Hap.Race
@@ -190,6 +198,117 @@ theorem C20_handoff_exact (fix : Variant) (c : Conn) (bits : List Bool) (s0 : Cf
   rw [e1, e2, List.append_nil] at h
   exact h
 
+
+/-! ### "The outcome equals that of some serial order" -/
+
+/-- **C20_serial_order — the property's own quantifier.**  Let the worker's updates each land as a
+    whole at a step boundary of the loop thread (`AtomicUpd`: the loop thread steps only while the
+    worker is between updates — any number of updates, each anywhere inside any loop operation;
+    the loop program may also contain controller writes).  Then the ghost order `lin`, in which
+    every update and every value-showing read is logged BY A STEP OF ITS OWN OPERATION (so inside
+    its real-time interval, and in the program order of its thread), is a serial execution with
+    the same outcome:
+    * it is a legal history of one sequential register that starts at the initial value and ends
+      in the current `_value` — every read shows exactly what the register holds at its place in
+      the order;
+    * its reads are, in order, exactly the values shown by the results returned so far (plus the
+      one read in progress that has already fixed its answer), and no read returned `None`;
+    * its updates are, in order, exactly the worker's accepted updates made so far (loop programs
+      without controller writes).
+    Together with C20_handoff_exact (the hand-offs are exactly the changing updates, in order) and
+    C20_event_delivered this is "the outcome equals that of some serial order". -/
+theorem C20_serial_order (bits : List Bool) (s0 : Cfg) (hq : Quiet s0) (hf : Fresh s0)
+    (hl : s0.lin = []) (hr : s0.results = []) (ha : AtomicUpd repaired bits s0) :
+    let s := run repaired bits s0
+    replay s0.value s.lin = some s.value ∧
+    readsOf s.lin = resObjs s.results ++ inflight s ∧
+    (∀ r ∈ s.results, r ≠ Res.nothing) ∧
+    (NoWrite s0.lops → updsOf s.lin ++ owedUpd s = validObjs s0.wups) := by
+  have hinv : LinInv s0.value s0 := by
+    refine ⟨by simp [hl, replay], ?_⟩
+    simp [hl, hr, readsOf, resObjs, inflight, hq.1]
+  have h := linInv_run true s0.value bits s0 (cacheInv_of_quiet_fresh s0 hq hf) hinv ha
+  refine ⟨h.1, h.2, ?_, ?_⟩
+  · exact (noNothing_run true bits s0 ⟨by simp [hr], by simp [hq.1], by simp [hq.1]⟩).1
+  · intro hn
+    have := upd_run repaired bits s0 hn
+    simpa [hl, updsOf, owedUpd, hq.2] using this
+
+/-- Why the quantifier places the WHOLE update at a boundary: if the loop thread completes two
+    operations between two lines of one `set_value` (after `self._value = value`, before the cache
+    clear), GET /characteristics shows the new value and a following GET /accessories still shows
+    the old one from the cache — 20, 21, 20 with a single update 20 → 21 is the outcome of no serial
+    order.  The no-stale and event theorems hold for such schedules too; serial equivalence of the
+    reads in progress does not.  (Outside the property's quantifier; recorded, not judged.) -/
+def fgStart : Cfg := init ⟨0, 20⟩ [.toHAP, .getValue, .toHAP] [⟨⟨1, 21⟩, true⟩] []
+def fgSchedule : List Bool :=
+  [true, true, true, true, true, false, false, true, true, true, true, false, false, false]
+
+theorem C20_fine_grained_not_serializable :
+    Quiet (run repaired fgSchedule fgStart) ∧
+    (run repaired fgSchedule fgStart).results = [.rep ⟨0, 20⟩, .value ⟨1, 21⟩, .rep ⟨0, 20⟩] ∧
+    replay ⟨0, 20⟩ (run repaired fgSchedule fgStart).lin = none ∧
+    ¬ AtomicUpd repaired fgSchedule fgStart ∧ Fresh (run repaired fgSchedule fgStart) := by
+  decide
+
+/-- **Every later read shows the final value — every schedule, no atomicity assumption.**  After
+    ANY schedule `bits1` (arbitrary merge of the two threads' steps) at whose end the worker has
+    finished and the loop thread is between operations, EVERY result that any further schedule
+    `bits2` of the remaining loop program produces — to_HAP (cache hit or miss), get_value — shows
+    the worker's last accepted value, and none is `None` (loop programs without controller
+    writes). -/
+theorem C20_later_reads_show_final (bits1 bits2 : List Bool) (s0 : Cfg) (hq : Quiet s0) (hf : Fresh s0)
+    (hn : NoWrite s0.lops) :
+    let s := run repaired bits1 s0
+    Quiet s → s.wups = [] →
+    ∃ new, (run repaired bits2 s).results = s.results ++ new ∧
+      ∀ x ∈ new, shows (lastValid s0.value s0.wups) x := by
+  intro s hq' hu
+  have hfresh : Fresh s := C20_no_stale bits1 s0 hq hf hq'
+  have hv : s.value = lastValid s0.value s0.wups :=
+    C20_update_not_lost repaired bits1 s0 hq.2 hn hq'.2 hu
+  have hlate : LateInv (lastValid s0.value s0.wups) s.results.length s := by
+    refine ⟨hq'.2, hu, hv, noWrite_run repaired bits1 s0 hn, ?_, ?_, by simp [hq'.1], by simp [hq'.1],
+      Nat.le_refl _, by simp⟩
+    · rcases hfresh with h | h
+      · exact Or.inl h
+      · exact Or.inr (by rw [h, hv])
+    · intro r hr; simp [hq'.1] at hr
+  have h2 := lateInv_run _ _ bits2 s hlate
+  obtain ⟨new, hnew⟩ := results_prefix_run repaired bits2 s
+  refine ⟨new, hnew, ?_⟩
+  have := h2.2.2.2.2.2.2.2.2.2
+  rw [hnew] at this
+  simpa using this
+
+/-- **The loop's own mechanisms deliver it.**  Under the hypotheses of C20_event, from any reached
+    configuration in which both threads are between operations and the loop program continues with
+    `drain` (run the handed-over callbacks) and the expiry of `c`'s coalescing timer: the loop
+    thread alone completes these two operations, and then nothing is left queued for `c`, its timer
+    is disarmed, the hand-off queue is empty and what `c` last learned carries the current value.
+    (C20_event_quiescent assumed the quiescent configuration; this theorem shows it is reached.) -/
+theorem C20_event_delivered (fix : Variant) (c : Conn) (bits : List Bool) (s0 : Cfg)
+    (hq : Quiet s0) (hk : s0.topicKey = true) (hc : c ∈ s0.subs)
+    (hun : ∀ op ∈ s0.lops, op ≠ LoopOp.unsub c ∧ op ≠ LoopOp.lost c)
+    (hpt : s0.pending c ≠ none → s0.timer c = true)
+    (h0 : (latest c s0).val = s0.value.val)
+    (hs : Serial fix bits s0) (rest : List LoopOp) :
+    Quiet (run fix bits s0) → (run fix bits s0).lops = .drain :: .fire c :: rest →
+    ∃ ext : List Bool, (∀ b ∈ ext, b = true) ∧
+      (run fix (bits ++ ext) s0).lpc = .idle ∧ (run fix (bits ++ ext) s0).lops = rest ∧
+      (run fix (bits ++ ext) s0).queue = [] ∧ (run fix (bits ++ ext) s0).timer c = false ∧
+      (run fix (bits ++ ext) s0).pending c = none ∧
+      ((run fix (bits ++ ext) s0).knows c).val = (run fix (bits ++ ext) s0).value.val := by
+  intro hq' hl
+  obtain ⟨ext, e1, e2, e3, e4, e5, e6, e7⟩ := drain_fire_finishes fix c (run fix bits s0) rest hq'.1 hl
+  refine ⟨ext, e1, ?_⟩
+  have hs' : Serial fix (bits ++ ext) s0 := serial_append fix bits ext s0 hs e2
+  have hw : (run fix (bits ++ ext) s0).wpc = .idle := by rw [run_append, e5]; exact hq'.2
+  have hqe : (run fix (bits ++ ext) s0).queue = [] := by rw [run_append]; exact e6
+  have ht : (run fix (bits ++ ext) s0).timer c = false := by rw [run_append]; exact e7
+  have h := C20_event_quiescent fix c (bits ++ ext) s0 hq hk hc hun hpt h0 hs' hw hqe ht
+  exact ⟨by rw [run_append]; exact e3, by rw [run_append]; exact e4, hqe, ht, h.1, h.2⟩
+
 /-- Why `Serial` is assumed (the known finding of C12, not judged by C20's oracle): a controller
     write that overtakes a worker update's undrained hand-off leaves the subscriber with the OLDER
     value as its latest event.  Worker: 20 → 21, hand-off enqueued; connection 8 writes 22 (queued
@@ -327,6 +446,24 @@ example :
 example :
     (run repaired noneSchedule (windowStart [.toHAP, .toHAP])).results = [.rep ⟨0, 20⟩, .rep ⟨0, 20⟩] ∧
     Fresh (run repaired noneSchedule (windowStart [.toHAP, .toHAP])) := by
+  decide
+
+/-- `AtomicUpd` is satisfiable by a genuinely interleaved run: the whole update lands between the
+    value read and the cache store of a `to_HAP` (the window schedule), and between two operations;
+    the serial order then is `read 20; upd 21; read 21`. -/
+example : AtomicUpd repaired (windowSchedule ++ [true, true, true, true, true, true, true])
+    (windowStart [.toHAP, .toHAP]) ∧
+    (run repaired (windowSchedule ++ [true, true, true, true, true, true, true])
+      (windowStart [.toHAP, .toHAP])).lin = [.read ⟨0, 20⟩, .upd ⟨1, 21⟩, .read ⟨1, 21⟩] ∧
+    (run repaired (windowSchedule ++ [true, true, true, true, true, true, true])
+      (windowStart [.toHAP, .toHAP])).results = [.rep ⟨0, 20⟩, .rep ⟨1, 21⟩] := by
+  decide
+
+/-- C20_event_delivered's premises on a concrete interleaved run: after the worker's update landed
+    inside a `to_HAP`, the program continues with `drain; fire 7`. -/
+example : Quiet (run repaired (evSchedule.take 11) evStart) ∧
+    (run repaired (evSchedule.take 11) evStart).lops = [.drain, .fire 7] ∧
+    Serial repaired (evSchedule.take 11) evStart := by
   decide
 
 end Hap.Race
